@@ -539,6 +539,19 @@ func (p *Printer) armBody(d *doc, b *Block, armCol int) {
 		d.sub(func(c int) []string { return p.Expr(b.Final, c, ctxTop) })
 		return
 	}
+	// a body of several statements, or one that is itself a match / if: below the arrow line (default), or
+	// STARTING on the arrow line with the following lines aligned under its first token
+	if p.choose("arm-block-on-arrow-line", 2) == 1 {
+		startCol := d.endCol() + 1
+		ls := p.Block(b, startCol)
+		first := strings.TrimSpace(ls[0])
+		if first != "" && !strings.HasPrefix(first, "//") && !strings.HasPrefix(first, "/*") {
+			d.add(" ")
+			d.lines[len(d.lines)-1] += strings.TrimLeft(ls[0], " ")
+			d.lines = append(d.lines, ls[1:]...)
+			return
+		}
+	}
 	p.blockBelow(d, b, armCol)
 }
 
